@@ -162,21 +162,50 @@ def run(ctx):
         g = ctx.anchor(ik)
         if g:
             v = FnView.get(P, g)
-            r = phi_arms(g, v, 0)
             good = False
             det = ""
-            if r:
-                core, arms = r
-                # predicate: is_even = is_even.unwrap_or_else(|| self.has_even_y())
-                pred_ok = is_call(core, name="unwrap_or_else") and core[2][0] == ("arg", 2) and core[2][1][0] == "closure" and core[2][1][2] == (("arg", 1),)
-                if pred_ok:
-                    cf = P.fns.get(core[2][1][1])
-                    ct = TermCx(P, cf).local(0) if cf else None
-                    pred_ok = ct is not None and (is_call(ct, name="has_even_y") and ct[2][0] == ("field", ("arg", 1), None, "0")
-                                                  or (pred_core(ct)[0][0] == "call" and mentions(ct, lambda s: s == ("field", ("arg", 1), None, "0"))))
-                even, odd = arms.get(True), arms.get(False)
-                good = pred_ok and even is not None and base_of(even) == ("arg", 1) and odd is not None
-                if good:
+            from ..paths import function_cases, Unbounded
+            hterm = strip_sites(FnView.get(P, h).cx.local(0)) if h else None
+            own_even = lambda x: (is_call(x, name="has_even_y") and x[2][0] == ("arg", 1)) or (hterm is not None and strip_sites(x) == hterm)
+            try:
+                cases = function_cases(P, g)
+            except Unbounded as e:
+                cases = []
+                det = str(e)
+            even_vals, odd_vals, undecided = [], [], 0
+            seen = set()
+            for c in cases:
+                given = [fa[2] for fa in c["facts"] if fa[0] == "succ" and fa[1] == ("arg", 2)]
+                dec = None
+                for fa in c["facts"]:
+                    if fa[0] != "cond":
+                        continue
+                    kind, X, holds = fa[1], fa[2], fa[4]
+                    full = X if kind == "other" else None
+                    if full is None:
+                        continue
+                    core_, pos_ = pred_core(full)
+                    val = holds if pos_ else (not holds)
+                    if is_call(core_, name="unwrap_or_else") and core_[2][0] == ("arg", 2) and core_[2][1][0] == "closure":
+                        body = closure_body(P, core_[2][1], {})
+                        if body is not None and own_even(body):
+                            dec = ("either", val)
+                    elif given == [True] and core_ == ("some", ("arg", 2)):
+                        dec = ("given", val)
+                    elif given == [False] and (own_even(full) and (holds,) or own_even(core_) and (val,)):
+                        dec = ("own", holds if own_even(full) else val)
+                if dec is None:
+                    undecided += 1
+                    continue
+                seen.add(dec)
+                (even_vals if dec[1] else odd_vals).append(c["value"])
+            covered = ({("either", True), ("either", False)} <= seen) or \
+                ({("given", True), ("given", False), ("own", True), ("own", False)} <= seen)
+            good = bool(cases) and not undecided and covered and all(base_of(x) == ("arg", 1) for x in even_vals) and bool(odd_vals)
+            if not good:
+                det += " decisions seen: %s, undecided paths: %d" % (sorted(seen), undecided)
+            for odd in (odd_vals if good else []):
+                if True:
                     for comp, how in comps.items():
                         val = get_field(odd, comp) if odd[0] == "agg" else None
                         if val is None and is_call(odd, name="expect"):
